@@ -499,7 +499,10 @@ pub fn gen_spec(r: &mut Rng) -> SpriteSpec {
                 })
                 .collect();
             let mut packets = vec![(skip, cols)];
-            if !need_pal && r.chance(1, 3) {
+            if !need_pal && r.chance(1, 12) {
+                packets.clear(); // a legacy palette chunk announcing zero packets: an empty palette
+            }
+            if !need_pal && !packets.is_empty() && r.chance(1, 3) {
                 let n2 = 1 + r.usize_below(5);
                 packets.push((
                     r.below(4) as u8,
@@ -1260,6 +1263,7 @@ pub const BUGS: &[&str] = &[
     "palette-shift-b",
     "tilemap-bomb-with-links",
     "deep-nesting-closed",
+    "tileset-bomb",
 ];
 
 fn ensure_tilemap(s: &mut SpriteSpec, r: &mut Rng) -> usize {
@@ -1786,6 +1790,13 @@ pub fn apply_bug(s: &mut SpriteSpec, bug: &str, r: &mut Rng, scale: usize) -> St
         "deflate-bomb" => {
             let i = ensure_raw(s, r);
             let n = scale.max(1) << 20;
+            // in indexed mode half of the bombs consist of an index the palette does not have
+            let fill = if s.fmt == Fmt::Indexed && r.chance(1, 2) {
+                let dom = index_domain(s);
+                (0..=255u8).rev().find(|b| !dom.contains(b)).unwrap_or(0)
+            } else {
+                0u8
+            };
             if let CelBody::Raw {
                 pixels,
                 compressed,
@@ -1794,12 +1805,22 @@ pub fn apply_bug(s: &mut SpriteSpec, bug: &str, r: &mut Rng, scale: usize) -> St
                 h,
             } = &mut s.cels[i].body
             {
-                *pixels = vec![0u8; n];
+                *pixels = vec![fill; n];
                 *compressed = true;
                 *level = 9;
-                if r.chance(1, 2) {
-                    *w = 0xFFFF;
-                    *h = 0xFFFF;
+                match r.below(3) {
+                    0 => {
+                        *w = 0xFFFF;
+                        *h = 0xFFFF;
+                    }
+                    1 => {
+                        // truthful declaration: w x h x bpp == inflated size (as far as 16-bit sides allow)
+                        let px = n / bpp;
+                        *w = 4096.min(px.max(1)) as u16;
+                        *h = (px / *w as usize).clamp(1, 65535) as u16;
+                        pixels.truncate(*w as usize * *h as usize * bpp);
+                    }
+                    _ => {}
                 }
             }
             format!("cel zlib stream inflating to {} MiB", scale.max(1))
@@ -2147,7 +2168,7 @@ pub fn apply_bug(s: &mut SpriteSpec, bug: &str, r: &mut Rng, scale: usize) -> St
             };
             // the pattern is part of the scenario's size parameter (scale mod 4), so that a job
             // lists every pattern explicitly instead of hoping to draw it
-            let variant = (scale % 4) as u64;
+            let variant = (scale % 6) as u64;
             match variant {
                 0 => {
                     // forward chain: k -> k+1, last raw
@@ -2168,6 +2189,24 @@ pub fn apply_bug(s: &mut SpriteSpec, bug: &str, r: &mut Rng, scale: usize) -> St
                     s.cels.push(link(0, 1));
                     s.cels.push(link(1, 0));
                 }
+                4 => {
+                    // a tail that runs into a self-link: 0 -> 1 -> ... -> k -> k (the loop does
+                    // not contain the start)
+                    let k = (n - 1).min(2 + r.usize_below(40));
+                    for f in 0..k {
+                        s.cels.push(link(f as u16, f as u16 + 1));
+                    }
+                    s.cels.push(link(k as u16, k as u16));
+                }
+                5 => {
+                    // rho shape: 0 -> 1 -> 2 -> ... -> k -> j with 0 < j < k
+                    let k = (n - 1).min(3 + r.usize_below(40));
+                    for f in 0..k {
+                        s.cels.push(link(f as u16, f as u16 + 1));
+                    }
+                    let j = 1 + r.usize_below(k - 1);
+                    s.cels.push(link(k as u16, j as u16));
+                }
                 _ => {
                     // every frame links to the raw frame 0 (well-formed, very long)
                     s.cels.push(raw(0));
@@ -2176,7 +2215,7 @@ pub fn apply_bug(s: &mut SpriteSpec, bug: &str, r: &mut Rng, scale: usize) -> St
                     }
                 }
             }
-            format!("{} frames, linked-cel pattern {}", n, ["forward chain", "backward chain", "two-cel cycle", "all link to frame 0"][variant as usize])
+            format!("{} frames, linked-cel pattern {}", n, ["forward chain", "backward chain", "two-cel cycle", "all link to frame 0", "tail into a self-link", "rho-shaped chain"][variant as usize])
         }
         "sparse-palette-gap" => {
             // indexed sprite whose (legacy, multi-packet) palette has gaps; one pixel in a gap
@@ -2448,6 +2487,34 @@ pub fn apply_bug(s: &mut SpriteSpec, bug: &str, r: &mut Rng, scale: usize) -> St
         "color-profile-icc" => {
             s.color_profile = Some(*r.pick(&[2u16, 2, 3, 0xFFFF]));
             "colour profile of ICC / unknown type (ICC payload applied on bytes)".into()
+        }
+        "tileset-bomb" => {
+            // millions of tiny tiles, truthfully declared, compressing to a few KB: anything kept
+            // per tile at load time costs far more than the tile's bytes
+            let count = (scale.max(1) as u32) << 20;
+            let (tw, th) = *r.pick(&[(1u16, 1u16), (1, 1), (2, 1), (2, 2)]);
+            let count = count / (tw as u32 * th as u32);
+            let v = if s.fmt == Fmt::Indexed { *index_domain(s).first().unwrap_or(&0) } else { 0 };
+            s.tilesets.clear();
+            for l in &mut s.layers {
+                if l.kind == 2 {
+                    l.kind = 0;
+                }
+            }
+            s.cels.retain(|c| !matches!(c.body, CelBody::Tilemap { .. }));
+            s.tilesets.push(TilesetSpec {
+                id: 0,
+                flags: 6,
+                count,
+                tw,
+                th,
+                base_index: 1,
+                name: "many".into(),
+                pixels: vec![v; count as usize * tw as usize * th as usize * bpp],
+                level: 9,
+                ext: (0, 0),
+            });
+            format!("tileset of {} tiles of {}x{}", count, tw, th)
         }
         "tags-in-later-frame" => {
             if s.durations.len() < 2 {
